@@ -658,11 +658,12 @@ KERNEL_GROUPS['KernelsGpo'] = [
     ('genomic_position_offsets.py', 'GenomicPositionOffsets.ref_var_overlaps_var', 'k_gpo_ref_var_overlaps_var', 'kgpo'),
     # array_utils.get_prev_index (a while loop that returns from inside): proved equal to the definition the SEARCH_F table is read with
     ('array_utils.py', 'get_prev_index', 'k_get_prev_index', None),
+    ('array_utils.py', 'get_next_index', 'k_get_next_index', None),
     # REF -> ALT (the nearest-position search goes through the SEARCH_F table to two array_utils functions: Model/PyLoop.v u8_prev_index / u8_next_index)
     ('genomic_position_offsets.py', 'GenomicPositionOffsets.ref_to_alt_position', 'k_gpo_ref_to_alt_position', 'kgpo'),
     ('genomic_position_offsets.py', 'GenomicPositionOffsets.ref_to_alt_range', 'k_gpo_ref_to_alt_range', 'kgpo'),
 ]
-KERNEL_BUILTINS = {'KernelsGpo': ('get_u8_array', 'get_prev_index', 'get_next_index')}
+KERNEL_BUILTINS = {'KernelsGpo': ('get_u8_array', 'get_prev_index', 'get_next_index', 'array.index')}
 KERNEL_GROUPS['KernelsExons'] = [
     # UIntRangeSortedList.get_before / get_after: the positions that complete a codon across exon junctions (while loops over the neighbouring exons)
     ('uint_range.py', 'UIntRangeSortedList.get_before', 'k_exons_get_before', 'list:exon'),
